@@ -47,7 +47,7 @@ PROPS = {
         batches=[
             # the heavy batch first: chunks are queued in batch order and the wall budget cuts the tail; every run of
             # the enumeration batch starts with a fault-free execution, so fault-free behaviour is covered either way
-            lock('disconnect-enumeration', 192, 3200, chunk=4, faults=True),
+            lock('disconnect-enumeration', 192, 3200, chunk=2, faults=True),
             lock('fault-free', 480, 16000, faults=False),
         ],
         wall=dict(quick=75, thorough=900),
